@@ -238,6 +238,10 @@ def to_str(ex, st, v):
                 yield st1, SV("str", int_to_str(w.t))
             elif w.sort == "bool":
                 yield st1, SV("str", z3.If(w.t, z3.StringVal("True"), z3.StringVal("False")))
+            elif w.sort == "real":
+                # str(float) == repr(float): shortest round-tripping decimal, an uninterpreted function here
+                f = ex.uf("py_float_repr", z3.RealSort(), z3.StringSort())
+                yield st1, SV("str", f(w.t))
             else:
                 raise _U()(f"str() of sort {w.sort}")
         elif isinstance(w, Opaque):
@@ -259,9 +263,11 @@ def to_str(ex, st, v):
 
 
 def format_value(ex, st, v, spec, conversion=-1):
-    if conversion not in (-1, 115):  # !s
-        if conversion == 114:
-            raise _U()("!r conversion")
+    if conversion == 114:  # !r
+        from . import builtins_calls as bc
+
+        yield from bc._repr(ex, st, [v], {})
+        return
     if spec is None or spec == "":
         yield from to_str(ex, st, v)
         return
